@@ -12,12 +12,10 @@
 //   crates/core/src/encoding/mod.rs:28  encoding_options()
 // ===========================================================================
 
-/// crates/core/src/encoding/mod.rs:28: `Options { endian: Little, max_buffer_size: Some(16 MiB) }`
-/// (`Options` is declared in prelude/binary_stream.rs; the value is carried, never
-/// inspected here: the 16 MiB guard and little-endian order are built into the
-/// BinaryReader stand-in)
-#[verifier::external_body]
-pub fn encoding_options() -> Options { unimplemented!() }
+/// crates/core/src/encoding/mod.rs:28 `encoding_options()` is no longer assumed here:
+/// unit `stream` EXTRACTS the function and its constant and pins the 16 MiB guard and
+/// the little-endian order that are built into the BinaryReader stand-in
+/// (`[decode_guard_is_16mib]`, `[layout_is_little_endian]`, as units/frag/codec_base.vrs does).
 
 /// The bytes a seekable read stream (`R: AsyncRead + AsyncSeek`) holds.
 /// Reading and seeking never change them.
